@@ -304,8 +304,7 @@ package xmpp
 //@   ensures d != nil
 //@ func (xmpp.Transport).Close(t) (err)
 //@ func (xmpp.Transport).Write(t, p) (n, err)
-//@   emit Write(t, bytes(p), err == nil)
-//@   ensures err == nil ==> n == len(p)
+//@   emit Write(t, bytes(p), err == nil, n)
 //@   ensures n >= 0 && n <= len(p)
 //@ event Marshaled(v Iface)
 //@ func (stanza.Packet).Name(p) (name)
@@ -542,7 +541,7 @@ package xmpp
 //@   requires t != nil
 //@   ensures [C08.writer.tcp.once] count(Write) <= old(count(Write)) + 1 && (t.readWriter != nil ==> count(Write) == old(count(Write)) + 1 && last(Write, 0) == t.readWriter && last(Write, 1) == bytes(p))
 //@   ensures [C08.writer.tcp.err]  (t.readWriter == nil || !last(Write, 2)) ==> err != nil
-//@   ensures [C08.writer.tcp.n]    err == nil ==> n == len(p)
+//@   ensures [C08.writer.tcp.n]    t.readWriter != nil ==> n == last(Write, 3)
 //@   emits Write
 //
 //@ func (*xmpp.WebsocketTransport).Read(t, p) (n, err)
@@ -600,6 +599,7 @@ package xmpp
 //
 // Package-level error values are created by package initialisation and never reassigned (scanned).
 //@ globalinv ErrTLSNotSupported != nil && ErrTransportProtocolNotSupported != nil && ErrCanOnlySendGetOrSetIq != nil
+//@ globalinv io.ErrShortWrite != nil && io.EOF != nil
 //
 //@ func (*xmpp.XMPPTransport).StartStream(t) (id, err)
 //@   requires t != nil && t.decoder != nil
@@ -746,13 +746,13 @@ package xmpp
 //@   requires sl != nil && sl.socket != nil && sl.logFile != nil
 //@   ensures [C08.logger.socket] count(Write) >= old(count(Write)) + 2 && arg(Write, old(count(Write)) + 1, 0) == sl.socket && arg(Write, old(count(Write)) + 1, 1) == bytes(p)
 //@   ensures [C08.logger.once]   forall(j, old(count(Write)) + 2, count(Write), arg(Write, j, 0) == sl.logFile) && arg(Write, old(count(Write)), 0) == sl.logFile
-//@   ensures [C08.logger.ok]     err == nil ==> n == len(p) && arg(Write, old(count(Write)) + 1, 2)
-//@   ensures [C08.logger.err]    !arg(Write, old(count(Write)) + 1, 2) ==> err != nil
+//@   ensures [C08.logger.ok]     err == nil ==> n == len(p) && arg(Write, old(count(Write)) + 1, 2) && arg(Write, old(count(Write)) + 1, 3) == len(p)
+//@   ensures [C08.logger.err]    (!arg(Write, old(count(Write)) + 1, 2) || arg(Write, old(count(Write)) + 1, 3) != len(p)) ==> err != nil
 //@   emits Write
 //@   loop 1:
 //@     invariant 0 <= $i && $i <= 2 && len($range) == 2 && $range[0] == sl.socket && $range[1] == sl.logFile && count(Write) == old(count(Write)) + 1 + $i
 //@     invariant arg(Write, old(count(Write)), 0) == sl.logFile
-//@     invariant $i >= 1 ==> arg(Write, old(count(Write)) + 1, 0) == sl.socket && arg(Write, old(count(Write)) + 1, 1) == bytes(p) && arg(Write, old(count(Write)) + 1, 2)
+//@     invariant $i >= 1 ==> arg(Write, old(count(Write)) + 1, 0) == sl.socket && arg(Write, old(count(Write)) + 1, 1) == bytes(p) && arg(Write, old(count(Write)) + 1, 2) && arg(Write, old(count(Write)) + 1, 3) == len(p)
 //@     invariant $i >= 2 ==> arg(Write, old(count(Write)) + 2, 0) == sl.logFile
 //@     decreases 2 - $i
 //
